@@ -577,7 +577,7 @@ func (e *Engine) Run(t *core.Tape, cfg *core.Config, st *core.Stats) *core.Viola
 	} else {
 		free := model.Run(prog, model.Options{MaxSteps: 400000})
 		if !free.Runaway && model.HashTrace(r0.trace, r0.out.TopError) != free.TraceHash {
-			return core.Violationf("trace-mismatch", "reference configuration differs from the reference model\n%s", desc())
+			return core.Violationf("trace-mismatch", "reference configuration differs from the reference model: %s (top-level: implementation %q, model %q)\nimplementation:\n  %s\nmodel:\n  %s\n%s", firstDiff(r0.trace, free.Trace), r0.out.TopError, free.TopError, strings.Join(tailS(r0.trace, 40), "\n  "), strings.Join(tailS(free.Trace, 40), "\n  "), desc())
 		}
 	}
 	F, R := 0, 0
